@@ -748,6 +748,22 @@ class _One(nn.Module):
             self.lin.weight = p
 
 
+CONTAINER_FORMS = ["DepthSequential", "DepthSequential(OrderedDict)", "DepthModuleList", "DepthModuleList(generator)"]
+
+
+def _make_container(form: str, mods: List[nn.Module]) -> nn.Module:
+    """every constructor form the torch base classes accept"""
+    import unit_scaling as uu
+    from collections import OrderedDict
+    if form == "DepthSequential":
+        return uu.DepthSequential(*mods)
+    if form == "DepthSequential(OrderedDict)":
+        return uu.DepthSequential(OrderedDict((f"layer{i}", m) for i, m in enumerate(mods)))
+    if form == "DepthModuleList":
+        return uu.DepthModuleList(mods)
+    return uu.DepthModuleList(m for m in mods)
+
+
 def h_depth(container: str, n: int, tagged_kind: str):
     """DepthModuleList/DepthSequential on modules whose parameters carry a symbolic tag (any of the four / missing)."""
 
@@ -769,7 +785,7 @@ def h_depth(container: str, n: int, tagged_kind: str):
         raised = False
         cont = None
         try:
-            cont = uu.DepthSequential(*mods) if container == "DepthSequential" else uu.DepthModuleList(mods)
+            cont = _make_container(container, mods)
         except ValueError:
             raised = True
         if tagged_kind == "untagged":
@@ -789,7 +805,7 @@ def replay_depth(obname: str, model: Dict[str, Any], info: Any) -> Tuple[bool, s
     n = info["n"]
     mods = [_One(None) if (info["tagged"] == "untagged" and i == n - 1) else _One(uu.Parameter(torch.zeros(2, 2), tag)) for i in range(n)]  # type: ignore[arg-type]
     try:
-        cont = uu.DepthSequential(*mods) if info["container"] == "DepthSequential" else uu.DepthModuleList(mods)
+        cont = _make_container(info["container"], mods)
     except ValueError:
         return info["tagged"] != "untagged", f"{info}: raised ValueError"
     if info["tagged"] == "untagged":
@@ -841,7 +857,7 @@ def run(rep: Report, only: str = "") -> None:
         for cfg in spec.configs(rep.tier):
             tasks.append((task_module, (name, cfg, timeout)))
     tasks += [(task_initial_state, ()), (task_rejected_options, ())]
-    for cont in ("DepthSequential", "DepthModuleList"):
+    for cont in CONTAINER_FORMS:
         for n in ((1, 2, 3, 5) if thorough else (1, 3)):
             for tk in ("tagged", "untagged"):
                 tasks.append((task_depth, (cont, n, tk)))
